@@ -28,7 +28,7 @@ COMPONENTS = {"real": ["Hedger.compute_hedge / compute_portfolio / compute_loss 
 ASSUMPTIONS = ["float64 only; central differences along random unit directions with h = 1e-6*(1+|theta|), threshold 1e-4 relative + 1e-9 "
                "absolute (3e-3 relative for quadratic CVaR, whose value comes from a bisection of precision 1e-6); a mismatch must persist for h/10 and 10h (a kink of a piecewise-linear criterion inside the stencil does not)",
                "smooth activations only (a ReLU kink is not a generic parameter point)"]
-PROBES = ["fd_frozen", "fd_replay", "prev_hedge_in_loss", "cost_positive", "H2", "criterion_parameter", "after_fit", "no_graph_price",
+PROBES = ["evaluation_only_call_raised", "fd_frozen", "fd_replay", "prev_hedge_in_loss", "cost_positive", "H2", "criterion_parameter", "after_fit", "no_graph_price",
           "no_graph_loss", "ambient_enable_grad", "ambient_no_grad", "graph_monitor", "fd_retry_other_h", "listed_hedge", "n_times_ge2", "eval_mode", "fd_truncation_dominated"]
 CRITS = ["EntropicRiskMeasure", "ExpectedShortfall", "QuadraticCVaR", "EntropicLoss", "IsoelasticLoss", "OCE", "MSELoss", "L1Loss"]
 
@@ -317,17 +317,30 @@ def _execute(program, stats, hist):
             if amb:
                 stats.fault("F5_ambient_grad_flip")
                 stats.probe("ambient_" + amb)
+            leaked = [None]
             try:
                 with _grad_ctx(amb):
-                    if op["which"] == "price":
-                        out = h.price(d, hedge=hedge, n_paths=op["n_paths"], n_times=op.get("n_times", 1))
-                        site = "price()"
-                        stats.probe("no_graph_price")
-                    else:
-                        out = h.compute_loss(d, hedge=hedge, n_paths=op["n_paths"], n_times=op.get("n_times", 1), enable_grad=False)
-                        site = "compute_loss(enable_grad=False)"
-                        stats.probe("no_graph_loss")
+                    ambient_on = torch.is_grad_enabled()
+                    try:
+                        if op["which"] == "price":
+                            site = "price()"
+                            out = h.price(d, hedge=hedge, n_paths=op["n_paths"], n_times=op.get("n_times", 1))
+                            stats.probe("no_graph_price")
+                        else:
+                            site = "compute_loss(enable_grad=False)"
+                            out = h.compute_loss(d, hedge=hedge, n_paths=op["n_paths"], n_times=op.get("n_times", 1), enable_grad=False)
+                            stats.probe("no_graph_loss")
+                    finally:
+                        # whether the call returns or raises, the caller's autograd mode is the caller's: an evaluation-only
+                        # quantity that leaves gradients switched off makes every later loss graph-less
+                        leaked[0] = (ambient_on, torch.is_grad_enabled())
             except Exception as e:
+                torch.set_grad_enabled(True)
+                stats.checks += 1
+                if leaked[0] is not None and leaked[0][0] != leaked[0][1]:
+                    raise Violation(ID, "grad_mode_leaked", site + "[raised]", dict(cfg, ambient=amb, before=leaked[0][0], after=leaked[0][1],
+                                                                                     error=repr(e)[:200]), seq)
+                stats.probe("evaluation_only_call_raised")
                 if op["which"] == "price" and cspec["kind"] in ("MSELoss", "L1Loss"):
                     continue  # torch losses have no cash(): price is not defined for them
                 if not _pl_admissible(h, d, hedge, cspec):
@@ -335,6 +348,9 @@ def _execute(program, stats, hist):
                 raise Violation(ID, "op_raised", "%s:%s" % (op["which"], type(e).__name__), dict(cfg, error=repr(e)[:300]), seq)
             finally:
                 torch.set_grad_enabled(True)
+            stats.checks += 1
+            if leaked[0] is not None and leaked[0][0] != leaked[0][1]:
+                raise Violation(ID, "grad_mode_leaked", site, dict(cfg, ambient=amb, before=leaked[0][0], after=leaked[0][1]), seq)
             stats.checks += 1
             if out.requires_grad or out.grad_fn is not None:
                 raise Violation(ID, "graph_on_evaluation_only_quantity", site, dict(cfg, ambient=amb), seq)
